@@ -1,0 +1,11 @@
+//go:build verif
+
+package node
+
+import "github.com/youzan/ZanRedisDB/raft"
+
+// VerifShouldPersistBeforeApply is processReady's shouldPersistBeforeApply (does the Ready publish committed
+// entries that are still unstable, so that they must be written to the WAL before the apply loop sees them).
+func VerifShouldPersistBeforeApply(rd *raft.Ready) bool {
+	return shouldPersistBeforeApply(rd)
+}
